@@ -10,10 +10,12 @@ the program on the shared semaphore (`envAcq`/`envRel` at any time) and every
 interleaving: `Reachable` quantifies over all event sequences the model admits.
 
 Output (`Sort.lean`; lintcmd: `runFromLintResult`, `printDiagnostics`).
+Directives (`Directives.lean`; lintcmd: the loops of `filterIgnored`): theorems stated there.
 -/
 import Verif.C06.PreserveT
 import Verif.C06.Progress
 import Verif.C06.SortLemmas
+import Verif.C06.Directives
 namespace Verif.C06
 
 section
